@@ -31,6 +31,8 @@ def discrete_grid_pos_to_id(x: int, y: int = 0, width: int = 0, z: int = 0, heig
     int
         The unique ID.
     """
+    # An extent of 0 denotes a single layer of cells: treat it as 1 so that ids stay unique on degenerate shapes
+    width, height = max(width, 1), max(height, 1)
     return (z * width * height) + (y * width) + x
 
 
